@@ -235,6 +235,26 @@ Spec == Init /\ [][Next]_vars
 (***************************************************************************)
 InvS2ContribExact     == IsM("s2") => LET P == S2Frames IN \A f \in 1..Len(c.fr) : S2ContribExact(P[f])
 InvS2ContribSymmetric == IsM("s2") => LET P == S2Frames IN \A f \in 1..Len(c.fr) : S2ContribSymmetric(P[f])
+\* S2LatticeLemma: on small full lattices every particle sees the environment of particle 1 (the trace specification then
+\* decides lattices of more than a thousand particles from row 1 alone, LocalOrder!S2PrepOne); evaluated by shard 0
+S2SmallLat(n, a) ==
+  LET N == ProdSeq(n)
+      sites == IF Len(n) = 2 THEN [m \in 1..N |-> <<a * ((m - 1) \div n[2]), a * ((m - 1) % n[2])>>]
+               ELSE [m \in 1..N |-> <<a * ((m - 1) \div (n[2] * n[3])), a * (((m - 1) \div n[3]) % n[2]), a * ((m - 1) % n[3])>>]
+  IN
+  S2Prep([d |-> Len(n), H |-> [k \in 1..Len(n) |-> [j \in 1..Len(n) |-> IF j = k THEN n[k] * a ELSE 0]],
+          ppp |-> [k \in 1..Len(n) |-> 1], S |-> 10, pos |-> sites, types |-> [i \in 1..Len(sites) |-> 1],
+          sig |-> << << <<3, 10>> >> >>, rn |-> 1, rd |-> 2, nd |-> 6])
+ASSUME S2LatticeLemma ==
+  (~IsM("s2") \/ SHARD # 0) \/
+  \A n \in { <<3, 3>>, <<3, 4>>, <<4, 5>>, <<3, 3, 3>>, <<2, 3, 4>> } :
+     LET P == S2SmallLat(n, 10) IN
+     /\ S2LatticeEnvironments(P)
+     /\ LET P1 == S2PrepOne(P) IN
+        /\ P1.rt[1] = P.rt[1] /\ P1.tt[1] = P.tt[1]
+        /\ S2Term(P1, 1) = S2Term(P, 1) /\ S2Class(P1, 1) = S2Class(P, 1) /\ S2Tie(P1, 1) = S2Tie(P, 1)
+        /\ \A i \in 2..S2N(P) : Len(S2Contrib(P, i)) = Len(S2Contrib(P, 1)) /\ S2Class(P, i) = S2Class(P, 1)
+
 InvS2ClassConsistent  == IsM("s2") => LET P == S2Frames IN \A f \in 1..Len(c.fr) : S2ClassConsistent(P[f])
 \* the directly computed pair tables agree with Cell!MinImage (sampled pairs of every configuration)
 InvFastImage ==
